@@ -540,7 +540,45 @@ def F_C04_3():
     return m.xs != [1, 5]
 
 
-ALL = [D17, D18, D19, D20, D21, F_C08_1, F_C04_3, D1, D2, D3, D4, D5, D6, D7, D8, D9, D10, D11, D12, D13, D14, D15, D16,
+def D22():
+    "C05: with_<items>(UNCHANGED) empties a list attribute instead of leaving it unchanged"
+    from typing import List
+    from spec_classes.types import UNCHANGED
+
+    @spec_class
+    class S:
+        xs: List[int] = [1]
+
+    s = S()
+    return s.with_xs(UNCHANGED).xs != [1]
+
+
+def F_C05_1():
+    "C05: with_<a>(MISSING) builds a default value instead of being a no-op returning the receiver"
+    from spec_classes.types import MISSING
+
+    @spec_class
+    class S:
+        a: int = 5
+
+    s = S()
+    r = s.with_a(MISSING)
+    return r is not s and r.a == 0
+
+
+def F_C05_2():
+    "C05: update_<a>(UNCHANGED) returns an equal copy instead of the receiver"
+    from spec_classes.types import UNCHANGED
+
+    @spec_class
+    class S:
+        a: int = 5
+
+    s = S()
+    return s.update_a(UNCHANGED) is not s
+
+
+ALL = [D17, D18, D19, D20, D21, D22, F_C08_1, F_C04_3, F_C05_1, F_C05_2, D1, D2, D3, D4, D5, D6, D7, D8, D9, D10, D11, D12, D13, D14, D15, D16,
        F_C01_1, F_C02_1, F_C04_1, F_C13_1, F_C07_1, F_C07_2, F_C07_3, F_C04_2, F_C01_2]
 
 if __name__ == "__main__":
